@@ -126,7 +126,13 @@ pub fn check_sequence(f: &Fun, g: &Fun, order: &str) -> Check {
 
 /// `rsbdd --evaluate=<dnf f> -c <filter> -t`
 pub fn check_cli(f: &Fun, spelling: &str) -> Check {
-    let cj = json!({"kind": "cli", "f": f.to_json(), "filter": spelling});
+    check_cli_rows(f, spelling, "any")
+}
+
+/// `rsbdd --evaluate=<dnf f> -c <filter> -f <rows> -t`: the printed rows are the true (resp.
+/// false, resp. all) rows of a function g that must stand in the -c filter's relation to f
+pub fn check_cli_rows(f: &Fun, spelling: &str, rows: &str) -> Check {
+    let cj = json!({"kind": "cli", "f": f.to_json(), "filter": spelling, "rows": rows});
     let v = |m: String| Violation::new(m, cj.clone());
     let filter = match spelling {
         "true" | "True" | "t" | "T" | "1" => 't',
@@ -139,7 +145,7 @@ pub fn check_cli(f: &Fun, spelling: &str) -> Check {
     let text = front::dnf_text(&ft, &names);
     let out = cli::run(
         &cli::bin("rsbdd"),
-        &[format!("--evaluate={}", text), cli::s("-c"), spelling.to_string(), cli::s("-t")],
+        &[format!("--evaluate={}", text), cli::s("-c"), spelling.to_string(), cli::s("-f"), rows.to_string(), cli::s("-t")],
         None,
         Duration::from_secs(60),
     );
@@ -176,20 +182,57 @@ pub fn check_cli(f: &Fun, spelling: &str) -> Check {
             }
         }
     }
-    if cover.iter().any(|c| *c != 1) {
-        return Err(v(format!("`{}` -c {}: rows do not partition the assignments", text, spelling)));
+    let rows_kind = match rows {
+        "true" | "True" | "t" | "T" | "1" => 't',
+        "false" | "False" | "f" | "F" | "0" => 'f',
+        _ => 'a',
+    };
+    if cover.iter().any(|c| *c > 1) {
+        return Err(v(format!("`{}` -c {} -f {}: two rows cover the same assignment", text, spelling, rows)));
     }
-    let ok = match filter {
-        't' => ft.leq(&g),
-        'f' => g.leq(&ft),
-        _ => g == ft,
+    let covered = TT::from_fn(uni.len(), |i| cover[i] == 1);
+    // what the rows say about g
+    let ok = match rows_kind {
+        'a' => {
+            if !covered.is_true() {
+                return Err(v(format!("`{}` -c {}: rows do not partition the assignments", text, spelling)));
+            }
+            match filter {
+                't' => ft.leq(&g),
+                'f' => g.leq(&ft),
+                _ => g == ft,
+            }
+        }
+        't' => {
+            // covered = g's satisfying assignments, all printed with result True
+            if g != covered {
+                return Err(v(format!("`{}` -c {} -f {}: a printed row is not a True row", text, spelling, rows)));
+            }
+            match filter {
+                't' => ft.leq(&g),
+                'f' => g.leq(&ft),
+                _ => g == ft,
+            }
+        }
+        _ => {
+            // covered = g's falsifying assignments, all printed with result False
+            if !g.is_false() {
+                return Err(v(format!("`{}` -c {} -f {}: a printed row is not a False row", text, spelling, rows)));
+            }
+            let gfun = covered.not();
+            match filter {
+                't' => ft.leq(&gfun),
+                'f' => gfun.leq(&ft),
+                _ => gfun == ft,
+            }
+        }
     };
     if !ok {
         return Err(v(format!(
-            "`{}` -c {}: printed function {} is not in the required relation to the formula's {}",
+            "`{}` -c {} -f {}: the printed rows describe a function that is not in the -c filter's relation to the formula's {}",
             text,
             spelling,
-            g.to_hex(),
+            rows,
             ft.to_hex()
         )));
     }
@@ -212,7 +255,7 @@ fn record(f: &Fun, filter: char, via: &str, omitted: bool, st: &mut Stats) {
 
 pub fn run(ctx: &mut Ctx) -> Result<(), Violation> {
     ctx.rule = "cases = (function f as truth table on ids, filter). Exhaustive: every function of <= 4 variables under id maps {0,1,2,3} and {1,3,4,8} x filters True/False/Any; sequences of four retain calls with every order of filters on ONE environment (all 3-variable functions); random: functions of 5..8 variables; \
-                CLI: `rsbdd --evaluate=<DNF of f> -c <spelling> -t` for sampled functions and every accepted spelling. Oracle on truth tables: True => f <= r, False => r <= f, Any => r is f; r ordered, reduced, tests only variables f depends on, consists of the environment's shared nodes. \
+                CLI: `rsbdd --evaluate=<DNF of f> -c <spelling> [-f t|False|any] -t` for sampled functions, every accepted spelling and every combination with a row filter. Oracle on truth tables: True => f <= r, False => r <= f, Any => r is f; r ordered, reduced, tests only variables f depends on, consists of the environment's shared nodes. \
                 Non-trivial = at least one choice is actually omitted (r != f); distinct by (table, ids, filter)."
         .to_string();
 
@@ -290,7 +333,14 @@ pub fn run(ctx: &mut Ctx) -> Result<(), Violation> {
     let r = par_jobs(ctx, &jobs, |(f, sp), st| {
         st.eval();
         st.class(&format!("cli:-c {}", sp));
-        check_cli(f, sp)
+        check_cli(f, sp)?;
+        // together with a row filter (-f), every combination
+        for rows in ["t", "False", "any"] {
+            st.eval();
+            st.class(&format!("cli:-c with -f {}", rows));
+            check_cli_rows(f, sp, rows)?;
+        }
+        Ok(())
     });
     ctx.stage("cli-retain-table", false, r)?;
     Ok(())
@@ -303,7 +353,7 @@ pub fn replay(case: &Value) -> Check {
         (Some("api"), Some(f)) if !filter.is_empty() => {
             check_api(&f, filter.chars().next().unwrap()).map(|_| ())
         }
-        (Some("cli"), Some(f)) => check_cli(&f, filter),
+        (Some("cli"), Some(f)) => check_cli_rows(&f, filter, case["rows"].as_str().unwrap_or("any")),
         (Some("sequence"), Some(f)) => match (Fun::from_json(&case["g"]), case["order"].as_str()) {
             (Some(g), Some(o)) => check_sequence(&f, &g, o),
             _ => Err(Violation::new("unreadable replay case", case.clone())),
